@@ -62,7 +62,7 @@ def write_bytes(d):
         return ET.tostring(d.to_xml_tree(), pretty_print=True, xml_declaration=True, encoding="utf-8")
 
 
-def cycle(d, prefix, root):
+def cycle(d, prefix, root, loaded=False):
     """write, load, write, load, write on the real library; mirrors Driver.cycle."""
     snap = sx(xser.ldef(d))
     try:
@@ -121,6 +121,9 @@ def cycle(d, prefix, root):
         return "err write3"
     if g2 != g3:
         notes += " bytes-differ-G2-G3"
+    if loaded and g1 != g2:
+        # `d` came from a document: G1 is that document after one cycle, and the next cycle must reproduce it
+        notes += " bytes-differ-G1-G2"
     t2, _ = xmlutil.text_to_sx(g2)
     t3, _ = xmlutil.text_to_sx(g3)
     # well-formedness and namespace of every element of G1
@@ -142,4 +145,4 @@ def impl_cyclexml(line):
         d = load_text(xml, prefix, root)
     except Exception:  # noqa: BLE001
         return "err load0"
-    return "D1 " + sx(xser.ldef(d)) + " " + cycle(d, prefix, root)
+    return "D1 " + sx(xser.ldef(d)) + " " + cycle(d, prefix, root, loaded=True)
